@@ -21,65 +21,65 @@ package ro
 //@   sync observers
 
 //@ func (*publishSubjectImpl).NextWithContext
-//@   props C01 C02 C10 C13
+//@   props C01 C02 C10 C13 C09 C06
 //@   binds ctx value
 //@   ensures [one-critical-section|C02,C10,C13] count(lock.mu) == 1
 //@   inline (*publishSubjectImpl).broadcastNext
 //@   track observers.* elem.* hook.* call.NewNotification*
-//@   ensures [open-broadcasts-to-all|C01,C10] atlock(status) == 0 ==> trace(observers.Range, elem.NextWithContext(ctx, value), observers.RangeEnd)
-//@   ensures [closed-drops|C01,C10] atlock(status) != 0 ==> trace(call.NewNotificationNext(value), hook.OnDroppedNotification(ctx, _))
+//@   ensures [open-broadcasts-to-all|C01,C10,C09] atlock(status) == 0 ==> trace(observers.Range, elem.NextWithContext(ctx, value), observers.RangeEnd)
+//@   ensures [closed-drops|C01,C10,C09] atlock(status) != 0 ==> trace(call.NewNotificationNext(value), hook.OnDroppedNotification(ctx, _))
 //@   ensures [broadcast-under-lock|C02,C10,C13] heldat(mu, elem.NextWithContext)
-//@   ensures [state-unchanged|C10] atunlock(status) == atlock(status) && atunlock(err).A == atlock(err).A && atunlock(err).B == atlock(err).B
+//@   ensures [state-unchanged|C10,C09] atunlock(status) == atlock(status) && atunlock(err).A == atlock(err).A && atunlock(err).B == atlock(err).B
 
 //@ func (*publishSubjectImpl).ErrorWithContext
-//@   props C01 C02 C10 C13
+//@   props C01 C02 C10 C13 C09 C06
 //@   binds ctx err
 //@   ensures [one-critical-section|C02,C10,C13] count(lock.mu) == 1
 //@   inline (*publishSubjectImpl).broadcastError (*publishSubjectImpl).unsubscribeAll
 //@   track observers.* elem.* hook.* call.NewNotification*
-//@   ensures [open-stores-broadcasts-clears|C01,C10] atlock(status) == 0 ==> atunlock(status) == 1 && atunlock(err).A == ctx && atunlock(err).B == err && trace(observers.Range, elem.ErrorWithContext(ctx, err), observers.RangeEnd, observers.Range, observers.Delete(_), observers.RangeEnd)
-//@   ensures [closed-drops|C01,C10] atlock(status) != 0 ==> trace(call.NewNotificationError(err), hook.OnDroppedNotification(ctx, _), observers.Range, observers.Delete(_), observers.RangeEnd)
+//@   ensures [open-stores-broadcasts-clears|C01,C10,C09] atlock(status) == 0 ==> atunlock(status) == 1 && atunlock(err).A == ctx && atunlock(err).B == err && trace(observers.Range, elem.ErrorWithContext(ctx, err), observers.RangeEnd, observers.Range, observers.Delete(_), observers.RangeEnd)
+//@   ensures [closed-drops|C01,C10,C09] atlock(status) != 0 ==> trace(call.NewNotificationError(err), hook.OnDroppedNotification(ctx, _), observers.Range, observers.Delete(_), observers.RangeEnd)
 //@   ensures [broadcast-under-lock|C02,C10,C13] heldat(mu, elem.ErrorWithContext)
 
 //@ func (*publishSubjectImpl).CompleteWithContext
-//@   props C01 C02 C10 C13
+//@   props C01 C02 C10 C13 C09 C06
 //@   binds ctx
 //@   ensures [one-critical-section|C02,C10,C13] count(lock.mu) == 1
 //@   inline (*publishSubjectImpl).broadcastComplete (*publishSubjectImpl).unsubscribeAll
 //@   track observers.* elem.* hook.* call.NewNotification*
-//@   ensures [open-stores-broadcasts-clears|C01,C10] atlock(status) == 0 ==> atunlock(status) == 2 && trace(observers.Range, elem.CompleteWithContext(ctx), observers.RangeEnd, observers.Range, observers.Delete(_), observers.RangeEnd)
-//@   ensures [closed-drops|C01,C10] atlock(status) != 0 ==> trace(call.NewNotificationComplete(), hook.OnDroppedNotification(ctx, _), observers.Range, observers.Delete(_), observers.RangeEnd)
+//@   ensures [open-stores-broadcasts-clears|C01,C10,C09] atlock(status) == 0 ==> atunlock(status) == 2 && trace(observers.Range, elem.CompleteWithContext(ctx), observers.RangeEnd, observers.Range, observers.Delete(_), observers.RangeEnd)
+//@   ensures [closed-drops|C01,C10,C09] atlock(status) != 0 ==> trace(call.NewNotificationComplete(), hook.OnDroppedNotification(ctx, _), observers.Range, observers.Delete(_), observers.RangeEnd)
 //@   ensures [broadcast-under-lock|C02,C10,C13] heldat(mu, elem.CompleteWithContext)
 
 //@ func (*publishSubjectImpl).SubscribeWithContext
-//@   props C01 C02 C03 C10 C11 C13 C14
+//@   props C01 C02 C03 C10 C11 C13 C14 C09 C06
 //@   binds subscriberCtx destination
-//@   ensures [one-critical-section|C02,C10,C11,C13] count(lock.mu) == 1 && heldat(mu, sub.ANY) && heldat(mu, loop.ANY)
+//@   ensures [one-critical-section|C02,C10,C11,C13,C09] count(lock.mu) == 1 && heldat(mu, sub.ANY) && heldat(mu, loop.ANY)
 //@   alias sub=NewSubscriber()
 //@   track call.NewSubscriber observers.* NewSubscriber().*
-//@   ensures [wraps-then-registers-when-open|C01,C03,C10,C14] atlock(status) == 0 ==> trace(call.NewSubscriber(destination), observers.Store(_, res(call.NewSubscriber)), sub.Add(_))
-//@   ensures [late-subscriber-gets-stored-error|C10] atlock(status) == 1 ==> trace(call.NewSubscriber(destination), sub.ErrorWithContext(atlock(err).A, atlock(err).B))
-//@   ensures [late-subscriber-gets-completion|C10] atlock(status) == 2 ==> trace(call.NewSubscriber(destination), sub.CompleteWithContext(subscriberCtx))
+//@   ensures [wraps-then-registers-when-open|C01,C03,C10,C14,C09,C06] atlock(status) == 0 ==> trace(call.NewSubscriber(destination), observers.Store(_, res(call.NewSubscriber)), sub.Add(_))
+//@   ensures [late-subscriber-gets-stored-error|C10,C09,C06] atlock(status) == 1 ==> trace(call.NewSubscriber(destination), sub.ErrorWithContext(atlock(err).A, atlock(err).B))
+//@   ensures [late-subscriber-gets-completion|C10,C09,C06] atlock(status) == 2 ==> trace(call.NewSubscriber(destination), sub.CompleteWithContext(subscriberCtx))
 //@   ensures [registration-under-lock|C10,C11,C13] heldat(mu, observers.Store)
-//@   ensures [returns-the-gate|C01] result == res(call.NewSubscriber)
+//@   ensures [returns-the-gate|C01,C06] result == res(call.NewSubscriber)
 //@   ensures [state-unchanged|C10] atunlock(status) == atlock(status)
 
 //@ func (*publishSubjectImpl).SubscribeWithContext$1
-//@   props C03 C10
+//@   props C03 C10 C09 C06
 //@   binds index
 //@   track observers.*
-//@   ensures [teardown-unregisters-own-entry|C03,C10] trace(observers.Delete(index))
+//@   ensures [teardown-unregisters-own-entry|C03,C10,C06] trace(observers.Delete(index))
 
 //@ func (*publishSubjectImpl).IsClosed
-//@   props C10
+//@   props C10 C09 C06
 //@   ensures [reads-status-under-lock] result == (atlock(status) != 0)
 
 //@ func (*publishSubjectImpl).HasThrown
-//@   props C10
+//@   props C10 C09 C06
 //@   ensures [reads-status-under-lock] result == (atlock(status) == 1)
 
 //@ func (*publishSubjectImpl).IsCompleted
-//@   props C10
+//@   props C10 C09 C06
 //@   ensures [reads-status-under-lock] result == (atlock(status) == 2)
 
 // ---------------------------------------------------------------------------
@@ -94,65 +94,65 @@ package ro
 //@   sync observers
 
 //@ func (*behaviorSubjectImpl).NextWithContext
-//@   props C01 C02 C10 C13
+//@   props C01 C02 C10 C13 C09 C06
 //@   binds ctx value
 //@   ensures [one-critical-section|C02,C10,C13] count(lock.mu) == 1
 //@   inline (*behaviorSubjectImpl).broadcastNext
 //@   track observers.* elem.* hook.* call.NewNotification*
-//@   ensures [open-stores-and-broadcasts|C01,C10] atlock(status) == 0 ==> atunlock(last).A == ctx && atunlock(last).B == value && trace(observers.Range, elem.NextWithContext(ctx, value), observers.RangeEnd)
-//@   ensures [closed-drops|C01,C10] atlock(status) != 0 ==> trace(call.NewNotificationNext(value), hook.OnDroppedNotification(ctx, _))
+//@   ensures [open-stores-and-broadcasts|C01,C10,C09] atlock(status) == 0 ==> atunlock(last).A == ctx && atunlock(last).B == value && trace(observers.Range, elem.NextWithContext(ctx, value), observers.RangeEnd)
+//@   ensures [closed-drops|C01,C10,C09] atlock(status) != 0 ==> trace(call.NewNotificationNext(value), hook.OnDroppedNotification(ctx, _))
 //@   ensures [broadcast-under-lock|C02,C10,C13] heldat(mu, elem.NextWithContext)
-//@   ensures [state-unchanged|C10] atunlock(status) == atlock(status) && atunlock(err).A == atlock(err).A && atunlock(err).B == atlock(err).B
+//@   ensures [state-unchanged|C10,C09] atunlock(status) == atlock(status) && atunlock(err).A == atlock(err).A && atunlock(err).B == atlock(err).B
 
 //@ func (*behaviorSubjectImpl).ErrorWithContext
-//@   props C01 C02 C10 C13
+//@   props C01 C02 C10 C13 C09 C06
 //@   binds ctx err
 //@   ensures [one-critical-section|C02,C10,C13] count(lock.mu) == 1
 //@   inline (*behaviorSubjectImpl).broadcastError (*behaviorSubjectImpl).unsubscribeAll
 //@   track observers.* elem.* hook.* call.NewNotification*
-//@   ensures [open-stores-broadcasts-clears|C01,C10] atlock(status) == 0 ==> atunlock(status) == 1 && atunlock(err).A == ctx && atunlock(err).B == err && trace(observers.Range, elem.ErrorWithContext(ctx, err), observers.RangeEnd, observers.Range, observers.Delete(_), observers.RangeEnd)
-//@   ensures [closed-drops|C01,C10] atlock(status) != 0 ==> trace(call.NewNotificationError(err), hook.OnDroppedNotification(ctx, _), observers.Range, observers.Delete(_), observers.RangeEnd)
+//@   ensures [open-stores-broadcasts-clears|C01,C10,C09] atlock(status) == 0 ==> atunlock(status) == 1 && atunlock(err).A == ctx && atunlock(err).B == err && trace(observers.Range, elem.ErrorWithContext(ctx, err), observers.RangeEnd, observers.Range, observers.Delete(_), observers.RangeEnd)
+//@   ensures [closed-drops|C01,C10,C09] atlock(status) != 0 ==> trace(call.NewNotificationError(err), hook.OnDroppedNotification(ctx, _), observers.Range, observers.Delete(_), observers.RangeEnd)
 //@   ensures [broadcast-under-lock|C02,C10,C13] heldat(mu, elem.ErrorWithContext)
 
 //@ func (*behaviorSubjectImpl).CompleteWithContext
-//@   props C01 C02 C10 C13
+//@   props C01 C02 C10 C13 C09 C06
 //@   binds ctx
 //@   ensures [one-critical-section|C02,C10,C13] count(lock.mu) == 1
 //@   inline (*behaviorSubjectImpl).broadcastComplete (*behaviorSubjectImpl).unsubscribeAll
 //@   track observers.* elem.* hook.* call.NewNotification*
-//@   ensures [open-stores-broadcasts-clears|C01,C10] atlock(status) == 0 ==> atunlock(status) == 2 && trace(observers.Range, elem.CompleteWithContext(ctx), observers.RangeEnd, observers.Range, observers.Delete(_), observers.RangeEnd)
-//@   ensures [closed-drops|C01,C10] atlock(status) != 0 ==> trace(call.NewNotificationComplete(), hook.OnDroppedNotification(ctx, _), observers.Range, observers.Delete(_), observers.RangeEnd)
+//@   ensures [open-stores-broadcasts-clears|C01,C10,C09] atlock(status) == 0 ==> atunlock(status) == 2 && trace(observers.Range, elem.CompleteWithContext(ctx), observers.RangeEnd, observers.Range, observers.Delete(_), observers.RangeEnd)
+//@   ensures [closed-drops|C01,C10,C09] atlock(status) != 0 ==> trace(call.NewNotificationComplete(), hook.OnDroppedNotification(ctx, _), observers.Range, observers.Delete(_), observers.RangeEnd)
 //@   ensures [broadcast-under-lock|C02,C10,C13] heldat(mu, elem.CompleteWithContext)
 
 //@ func (*behaviorSubjectImpl).SubscribeWithContext
-//@   props C01 C02 C03 C10 C11 C13 C14
+//@   props C01 C02 C03 C10 C11 C13 C14 C09 C06
 //@   binds subscriberCtx destination
-//@   ensures [one-critical-section|C02,C10,C11,C13] count(lock.mu) == 1 && heldat(mu, sub.ANY) && heldat(mu, loop.ANY)
+//@   ensures [one-critical-section|C02,C10,C11,C13,C09] count(lock.mu) == 1 && heldat(mu, sub.ANY) && heldat(mu, loop.ANY)
 //@   alias sub=NewSubscriber()
 //@   track call.NewSubscriber observers.* NewSubscriber().*
-//@   ensures [open-replays-latest-then-registers|C01,C02,C03,C10,C14] atlock(status) == 0 ==> trace(call.NewSubscriber(destination), sub.NextWithContext(atlock(last).A, atlock(last).B), observers.Store(_, res(call.NewSubscriber)), sub.Add(_))
-//@   ensures [late-subscriber-gets-stored-error|C10] atlock(status) == 1 ==> trace(call.NewSubscriber(destination), sub.ErrorWithContext(atlock(err).A, atlock(err).B))
-//@   ensures [late-subscriber-gets-completion|C10] atlock(status) == 2 ==> trace(call.NewSubscriber(destination), sub.CompleteWithContext(subscriberCtx))
+//@   ensures [open-replays-latest-then-registers|C01,C02,C03,C10,C14,C09,C06] atlock(status) == 0 ==> trace(call.NewSubscriber(destination), sub.NextWithContext(atlock(last).A, atlock(last).B), observers.Store(_, res(call.NewSubscriber)), sub.Add(_))
+//@   ensures [late-subscriber-gets-stored-error|C10,C09,C06] atlock(status) == 1 ==> trace(call.NewSubscriber(destination), sub.ErrorWithContext(atlock(err).A, atlock(err).B))
+//@   ensures [late-subscriber-gets-completion|C10,C09,C06] atlock(status) == 2 ==> trace(call.NewSubscriber(destination), sub.CompleteWithContext(subscriberCtx))
 //@   ensures [registration-under-lock|C10,C11,C13] heldat(mu, observers.Store)
-//@   ensures [returns-the-gate|C01] result == res(call.NewSubscriber)
+//@   ensures [returns-the-gate|C01,C06] result == res(call.NewSubscriber)
 //@   ensures [state-unchanged|C10] atunlock(status) == atlock(status)
 
 //@ func (*behaviorSubjectImpl).SubscribeWithContext$1
-//@   props C03 C10
+//@   props C03 C10 C09 C06
 //@   binds index
 //@   track observers.*
-//@   ensures [teardown-unregisters-own-entry|C03,C10] trace(observers.Delete(index))
+//@   ensures [teardown-unregisters-own-entry|C03,C10,C06] trace(observers.Delete(index))
 
 //@ func (*behaviorSubjectImpl).IsClosed
-//@   props C10
+//@   props C10 C09 C06
 //@   ensures [reads-status-under-lock] result == (atlock(status) != 0)
 
 //@ func (*behaviorSubjectImpl).HasThrown
-//@   props C10
+//@   props C10 C09 C06
 //@   ensures [reads-status-under-lock] result == (atlock(status) == 1)
 
 //@ func (*behaviorSubjectImpl).IsCompleted
-//@   props C10
+//@   props C10 C09 C06
 //@   ensures [reads-status-under-lock] result == (atlock(status) == 2)
 
 // ---------------------------------------------------------------------------
@@ -167,65 +167,65 @@ package ro
 //@   sync observers
 
 //@ func (*asyncSubjectImpl).NextWithContext
-//@   props C01 C02 C10 C13
+//@   props C01 C02 C10 C13 C09 C06
 //@   binds ctx value
 //@   ensures [one-critical-section|C02,C10,C13] count(lock.mu) == 1
 //@   track observers.* elem.* hook.* call.NewNotification*
-//@   ensures [open-only-remembers|C01,C10] atlock(status) == 0 ==> atunlock(hasValue) == true && atunlock(value).A == ctx && atunlock(value).B == value && trace()
-//@   ensures [closed-drops|C01,C10] atlock(status) != 0 ==> trace(call.NewNotificationNext(value), hook.OnDroppedNotification(ctx, _))
+//@   ensures [open-only-remembers|C01,C10,C09] atlock(status) == 0 ==> atunlock(hasValue) == true && atunlock(value).A == ctx && atunlock(value).B == value && trace()
+//@   ensures [closed-drops|C01,C10,C09] atlock(status) != 0 ==> trace(call.NewNotificationNext(value), hook.OnDroppedNotification(ctx, _))
 //@   ensures [status-unchanged|C10] atunlock(status) == atlock(status)
 
 //@ func (*asyncSubjectImpl).ErrorWithContext
-//@   props C01 C02 C10 C13
+//@   props C01 C02 C10 C13 C09 C06
 //@   binds ctx err
 //@   ensures [one-critical-section|C02,C10,C13] count(lock.mu) == 1
 //@   inline (*asyncSubjectImpl).broadcastError (*asyncSubjectImpl).unsubscribeAll
 //@   track observers.* elem.* hook.* call.NewNotification*
-//@   ensures [open-stores-broadcasts-clears|C01,C10] atlock(status) == 0 ==> atunlock(status) == 1 && atunlock(err).A == ctx && atunlock(err).B == err && trace(observers.Range, elem.ErrorWithContext(ctx, err), observers.RangeEnd, observers.Range, observers.Delete(_), observers.RangeEnd)
-//@   ensures [closed-drops|C01,C10] atlock(status) != 0 ==> trace(call.NewNotificationError(err), hook.OnDroppedNotification(ctx, _), observers.Range, observers.Delete(_), observers.RangeEnd)
+//@   ensures [open-stores-broadcasts-clears|C01,C10,C09] atlock(status) == 0 ==> atunlock(status) == 1 && atunlock(err).A == ctx && atunlock(err).B == err && trace(observers.Range, elem.ErrorWithContext(ctx, err), observers.RangeEnd, observers.Range, observers.Delete(_), observers.RangeEnd)
+//@   ensures [closed-drops|C01,C10,C09] atlock(status) != 0 ==> trace(call.NewNotificationError(err), hook.OnDroppedNotification(ctx, _), observers.Range, observers.Delete(_), observers.RangeEnd)
 //@   ensures [broadcast-under-lock|C02,C10,C13] heldat(mu, elem.ErrorWithContext)
 
 //@ func (*asyncSubjectImpl).CompleteWithContext
-//@   props C01 C02 C10 C13
+//@   props C01 C02 C10 C13 C09 C06
 //@   binds ctx
 //@   ensures [one-critical-section|C02,C10,C13] count(lock.mu) == 1
 //@   inline (*asyncSubjectImpl).broadcastComplete (*asyncSubjectImpl).broadcastNext (*asyncSubjectImpl).unsubscribeAll
 //@   track observers.* elem.* hook.* call.NewNotification*
-//@   ensures [open-with-value-emits-it-then-completes|C01,C10] atlock(status) == 0 && atlock(hasValue) ==> atunlock(status) == 2 && trace(observers.Range, elem.NextWithContext(atlock(value).A, atlock(value).B), observers.RangeEnd, observers.Range, elem.CompleteWithContext(ctx), observers.RangeEnd, observers.Range, observers.Delete(_), observers.RangeEnd)
-//@   ensures [open-without-value-just-completes|C01,C10] atlock(status) == 0 && !atlock(hasValue) ==> atunlock(status) == 2 && trace(observers.Range, elem.CompleteWithContext(ctx), observers.RangeEnd, observers.Range, observers.Delete(_), observers.RangeEnd)
-//@   ensures [closed-drops|C01,C10] atlock(status) != 0 ==> trace(call.NewNotificationComplete(), hook.OnDroppedNotification(ctx, _), observers.Range, observers.Delete(_), observers.RangeEnd)
+//@   ensures [open-with-value-emits-it-then-completes|C01,C10,C09] atlock(status) == 0 && atlock(hasValue) ==> atunlock(status) == 2 && trace(observers.Range, elem.NextWithContext(atlock(value).A, atlock(value).B), observers.RangeEnd, observers.Range, elem.CompleteWithContext(ctx), observers.RangeEnd, observers.Range, observers.Delete(_), observers.RangeEnd)
+//@   ensures [open-without-value-just-completes|C01,C10,C09] atlock(status) == 0 && !atlock(hasValue) ==> atunlock(status) == 2 && trace(observers.Range, elem.CompleteWithContext(ctx), observers.RangeEnd, observers.Range, observers.Delete(_), observers.RangeEnd)
+//@   ensures [closed-drops|C01,C10,C09] atlock(status) != 0 ==> trace(call.NewNotificationComplete(), hook.OnDroppedNotification(ctx, _), observers.Range, observers.Delete(_), observers.RangeEnd)
 //@   ensures [broadcast-under-lock|C02,C10,C13] heldat(mu, elem.CompleteWithContext)
 
 //@ func (*asyncSubjectImpl).SubscribeWithContext
-//@   props C01 C02 C03 C10 C11 C13 C14
+//@   props C01 C02 C03 C10 C11 C13 C14 C09 C06
 //@   binds subscriberCtx destination
-//@   ensures [one-critical-section|C02,C10,C11,C13] count(lock.mu) == 1 && heldat(mu, sub.ANY) && heldat(mu, loop.ANY)
+//@   ensures [one-critical-section|C02,C10,C11,C13,C09] count(lock.mu) == 1 && heldat(mu, sub.ANY) && heldat(mu, loop.ANY)
 //@   alias sub=NewSubscriber()
 //@   track call.NewSubscriber observers.* NewSubscriber().*
-//@   ensures [wraps-then-registers-when-open|C01,C03,C10,C14] atlock(status) == 0 ==> trace(call.NewSubscriber(destination), observers.Store(_, res(call.NewSubscriber)), sub.Add(_))
-//@   ensures [late-subscriber-gets-stored-error|C10] atlock(status) == 1 ==> trace(call.NewSubscriber(destination), sub.ErrorWithContext(atlock(err).A, atlock(err).B))
-//@   ensures [late-subscriber-gets-final-value-then-completion|C10] atlock(status) == 2 && atlock(hasValue) ==> trace(call.NewSubscriber(destination), sub.NextWithContext(atlock(value).A, atlock(value).B), sub.CompleteWithContext(subscriberCtx))
-//@   ensures [late-subscriber-of-empty-gets-completion|C10] atlock(status) == 2 && !atlock(hasValue) ==> trace(call.NewSubscriber(destination), sub.CompleteWithContext(subscriberCtx))
+//@   ensures [wraps-then-registers-when-open|C01,C03,C10,C14,C09,C06] atlock(status) == 0 ==> trace(call.NewSubscriber(destination), observers.Store(_, res(call.NewSubscriber)), sub.Add(_))
+//@   ensures [late-subscriber-gets-stored-error|C10,C09,C06] atlock(status) == 1 ==> trace(call.NewSubscriber(destination), sub.ErrorWithContext(atlock(err).A, atlock(err).B))
+//@   ensures [late-subscriber-gets-final-value-then-completion|C10,C09,C06] atlock(status) == 2 && atlock(hasValue) ==> trace(call.NewSubscriber(destination), sub.NextWithContext(atlock(value).A, atlock(value).B), sub.CompleteWithContext(subscriberCtx))
+//@   ensures [late-subscriber-of-empty-gets-completion|C10,C09,C06] atlock(status) == 2 && !atlock(hasValue) ==> trace(call.NewSubscriber(destination), sub.CompleteWithContext(subscriberCtx))
 //@   ensures [registration-under-lock|C10,C11,C13] heldat(mu, observers.Store)
-//@   ensures [returns-the-gate|C01] result == res(call.NewSubscriber)
+//@   ensures [returns-the-gate|C01,C06] result == res(call.NewSubscriber)
 //@   ensures [state-unchanged|C10] atunlock(status) == atlock(status)
 
 //@ func (*asyncSubjectImpl).SubscribeWithContext$1
-//@   props C03 C10
+//@   props C03 C10 C09 C06
 //@   binds index
 //@   track observers.*
-//@   ensures [teardown-unregisters-own-entry|C03,C10] trace(observers.Delete(index))
+//@   ensures [teardown-unregisters-own-entry|C03,C10,C06] trace(observers.Delete(index))
 
 //@ func (*asyncSubjectImpl).IsClosed
-//@   props C10
+//@   props C10 C09 C06
 //@   ensures [reads-status-under-lock] result == (atlock(status) != 0)
 
 //@ func (*asyncSubjectImpl).HasThrown
-//@   props C10
+//@   props C10 C09 C06
 //@   ensures [reads-status-under-lock] result == (atlock(status) == 1)
 
 //@ func (*asyncSubjectImpl).IsCompleted
-//@   props C10
+//@   props C10 C09 C06
 //@   ensures [reads-status-under-lock] result == (atlock(status) == 2)
 
 // ---------------------------------------------------------------------------
@@ -241,69 +241,69 @@ package ro
 //@   const bufferSize
 
 //@ func (*replaySubjectImpl).NextWithContext
-//@   props C01 C02 C10 C11 C13
+//@   props C01 C02 C10 C11 C13 C09 C06
 //@   binds s ctx value
 //@   ensures [one-critical-section|C02,C10,C13] count(lock.mu) == 1
 //@   requires s.bufferSize >= -1
 //@   inline (*replaySubjectImpl).broadcastNext
 //@   track observers.* elem.* hook.* call.NewNotification*
-//@   ensures [open-broadcasts-to-all|C01,C10] atlock(status) == 0 ==> called(elem.NextWithContext) && arg(elem.NextWithContext, 0) == ctx && arg(elem.NextWithContext, 1) == value
-//@   ensures [open-appends-when-room|C10] atlock(status) == 0 && (s.bufferSize == -1 || len(atlock(values)) + 1 <= s.bufferSize) ==> len(atunlock(values)) == len(atlock(values)) + 1 && atunlock(values)[len(atlock(values))].A == ctx && atunlock(values)[len(atlock(values))].B == value && forall(j, 0, len(atlock(values)), atunlock(values)[j] == atlock(values)[j])
-//@   ensures [open-keeps-last-n-when-full|C10] atlock(status) == 0 && s.bufferSize != -1 && s.bufferSize >= 1 && len(atlock(values)) + 1 > s.bufferSize ==> len(atunlock(values)) == s.bufferSize && atunlock(values)[s.bufferSize - 1].A == ctx && atunlock(values)[s.bufferSize - 1].B == value && forall(j, 0, s.bufferSize - 1, atunlock(values)[j] == atlock(values)[j + len(atlock(values)) + 1 - s.bufferSize])
+//@   ensures [open-broadcasts-to-all|C01,C10,C09] atlock(status) == 0 ==> called(elem.NextWithContext) && arg(elem.NextWithContext, 0) == ctx && arg(elem.NextWithContext, 1) == value
+//@   ensures [open-appends-when-room|C10,C09] atlock(status) == 0 && (s.bufferSize == -1 || len(atlock(values)) + 1 <= s.bufferSize) ==> len(atunlock(values)) == len(atlock(values)) + 1 && atunlock(values)[len(atlock(values))].A == ctx && atunlock(values)[len(atlock(values))].B == value && forall(j, 0, len(atlock(values)), atunlock(values)[j] == atlock(values)[j])
+//@   ensures [open-keeps-last-n-when-full|C10,C09] atlock(status) == 0 && s.bufferSize != -1 && s.bufferSize >= 1 && len(atlock(values)) + 1 > s.bufferSize ==> len(atunlock(values)) == s.bufferSize && atunlock(values)[s.bufferSize - 1].A == ctx && atunlock(values)[s.bufferSize - 1].B == value && forall(j, 0, s.bufferSize - 1, atunlock(values)[j] == atlock(values)[j + len(atlock(values)) + 1 - s.bufferSize])
 //@   ensures [a-buffer-of-size-zero-keeps-nothing|C10,C11] atlock(status) == 0 && s.bufferSize == 0 ==> len(atunlock(values)) == 0
-//@   ensures [closed-drops|C01,C10] atlock(status) != 0 ==> trace(call.NewNotificationNext(value), hook.OnDroppedNotification(ctx, _))
+//@   ensures [closed-drops|C01,C10,C09] atlock(status) != 0 ==> trace(call.NewNotificationNext(value), hook.OnDroppedNotification(ctx, _))
 //@   ensures [broadcast-under-lock|C02,C10,C13] heldat(mu, elem.NextWithContext)
 //@   ensures [status-unchanged|C10] atunlock(status) == atlock(status)
 
 //@ func (*replaySubjectImpl).ErrorWithContext
-//@   props C01 C02 C10 C13
+//@   props C01 C02 C10 C13 C09 C06
 //@   binds ctx err
 //@   ensures [one-critical-section|C02,C10,C13] count(lock.mu) == 1
 //@   inline (*replaySubjectImpl).broadcastError (*replaySubjectImpl).unsubscribeAll
 //@   track observers.* elem.* hook.* call.NewNotification*
-//@   ensures [open-stores-broadcasts-clears|C01,C10] atlock(status) == 0 ==> atunlock(status) == 1 && atunlock(err).A == ctx && atunlock(err).B == err && trace(observers.Range, elem.ErrorWithContext(ctx, err), observers.RangeEnd, observers.Range, observers.Delete(_), observers.RangeEnd)
-//@   ensures [closed-drops|C01,C10] atlock(status) != 0 ==> trace(call.NewNotificationError(err), hook.OnDroppedNotification(ctx, _), observers.Range, observers.Delete(_), observers.RangeEnd)
+//@   ensures [open-stores-broadcasts-clears|C01,C10,C09] atlock(status) == 0 ==> atunlock(status) == 1 && atunlock(err).A == ctx && atunlock(err).B == err && trace(observers.Range, elem.ErrorWithContext(ctx, err), observers.RangeEnd, observers.Range, observers.Delete(_), observers.RangeEnd)
+//@   ensures [closed-drops|C01,C10,C09] atlock(status) != 0 ==> trace(call.NewNotificationError(err), hook.OnDroppedNotification(ctx, _), observers.Range, observers.Delete(_), observers.RangeEnd)
 //@   ensures [broadcast-under-lock|C02,C10,C13] heldat(mu, elem.ErrorWithContext)
 
 //@ func (*replaySubjectImpl).CompleteWithContext
-//@   props C01 C02 C10 C13
+//@   props C01 C02 C10 C13 C09 C06
 //@   binds ctx
 //@   ensures [one-critical-section|C02,C10,C13] count(lock.mu) == 1
 //@   inline (*replaySubjectImpl).broadcastComplete (*replaySubjectImpl).unsubscribeAll
 //@   track observers.* elem.* hook.* call.NewNotification*
-//@   ensures [open-stores-broadcasts-clears|C01,C10] atlock(status) == 0 ==> atunlock(status) == 2 && trace(observers.Range, elem.CompleteWithContext(ctx), observers.RangeEnd, observers.Range, observers.Delete(_), observers.RangeEnd)
-//@   ensures [closed-drops|C01,C10] atlock(status) != 0 ==> trace(call.NewNotificationComplete(), hook.OnDroppedNotification(ctx, _), observers.Range, observers.Delete(_), observers.RangeEnd)
+//@   ensures [open-stores-broadcasts-clears|C01,C10,C09] atlock(status) == 0 ==> atunlock(status) == 2 && trace(observers.Range, elem.CompleteWithContext(ctx), observers.RangeEnd, observers.Range, observers.Delete(_), observers.RangeEnd)
+//@   ensures [closed-drops|C01,C10,C09] atlock(status) != 0 ==> trace(call.NewNotificationComplete(), hook.OnDroppedNotification(ctx, _), observers.Range, observers.Delete(_), observers.RangeEnd)
 //@   ensures [broadcast-under-lock|C02,C10,C13] heldat(mu, elem.CompleteWithContext)
 
 //@ func (*replaySubjectImpl).SubscribeWithContext
-//@   props C01 C02 C03 C10 C11 C13 C14
+//@   props C01 C02 C03 C10 C11 C13 C14 C09 C06
 //@   binds subscriberCtx destination
-//@   ensures [one-critical-section|C02,C10,C11,C13] count(lock.mu) == 1 && heldat(mu, sub.ANY) && heldat(mu, loop.ANY)
+//@   ensures [one-critical-section|C02,C10,C11,C13,C09] count(lock.mu) == 1 && heldat(mu, sub.ANY) && heldat(mu, loop.ANY)
 //@   alias sub=NewSubscriber()
 //@   track call.NewSubscriber observers.* NewSubscriber().* loop.*
-//@   ensures [open-replays-buffer-then-registers|C01,C02,C03,C10,C14] atlock(status) == 0 ==> trace(call.NewSubscriber(destination), loop.L0, observers.Store(_, res(call.NewSubscriber)), sub.Add(_))
-//@   ensures [late-subscriber-gets-buffer-then-stored-error|C10] atlock(status) == 1 ==> trace(call.NewSubscriber(destination), loop.L0, sub.ErrorWithContext(atlock(err).A, atlock(err).B))
-//@   ensures [late-subscriber-gets-buffer-then-completion|C10] atlock(status) == 2 ==> trace(call.NewSubscriber(destination), loop.L0, sub.CompleteWithContext(subscriberCtx))
+//@   ensures [open-replays-buffer-then-registers|C01,C02,C03,C10,C14,C09,C06] atlock(status) == 0 ==> trace(call.NewSubscriber(destination), loop.L0, observers.Store(_, res(call.NewSubscriber)), sub.Add(_))
+//@   ensures [late-subscriber-gets-buffer-then-stored-error|C10,C09,C06] atlock(status) == 1 ==> trace(call.NewSubscriber(destination), loop.L0, sub.ErrorWithContext(atlock(err).A, atlock(err).B))
+//@   ensures [late-subscriber-gets-buffer-then-completion|C10,C09,C06] atlock(status) == 2 ==> trace(call.NewSubscriber(destination), loop.L0, sub.CompleteWithContext(subscriberCtx))
 //@   ensures [registration-under-lock|C10,C11,C13] heldat(mu, observers.Store)
-//@   ensures [returns-the-gate|C01] result == res(call.NewSubscriber)
+//@   ensures [returns-the-gate|C01,C06] result == res(call.NewSubscriber)
 //@   ensures [state-unchanged|C10] atunlock(status) == atlock(status)
 
 //@ func (*replaySubjectImpl).SubscribeWithContext$1
-//@   props C03 C10
+//@   props C03 C10 C09 C06
 //@   binds index
 //@   track observers.*
-//@   ensures [teardown-unregisters-own-entry|C03,C10] trace(observers.Delete(index))
+//@   ensures [teardown-unregisters-own-entry|C03,C10,C06] trace(observers.Delete(index))
 
 //@ func (*replaySubjectImpl).IsClosed
-//@   props C10
+//@   props C10 C09 C06
 //@   ensures [reads-status-under-lock] result == (atlock(status) != 0)
 
 //@ func (*replaySubjectImpl).HasThrown
-//@   props C10
+//@   props C10 C09 C06
 //@   ensures [reads-status-under-lock] result == (atlock(status) == 1)
 
 //@ func (*replaySubjectImpl).IsCompleted
-//@   props C10
+//@   props C10 C09 C06
 //@   ensures [reads-status-under-lock] result == (atlock(status) == 2)
 
 //@ loop (*replaySubjectImpl).SubscribeWithContext#0
@@ -322,49 +322,49 @@ package ro
 //@   const bufferSize
 
 //@ func (*unicastSubjectImpl).NextWithContext
-//@   props C01 C02 C10 C13 C06
+//@   props C01 C02 C10 C13 C06 C09
 //@   binds s ctx value
 //@   ensures [one-critical-section|C02,C10,C13] count(lock.mu) == 1
 //@   requires s.bufferSize >= -1
 //@   track observer.* hook.* call.NewNotification*
-//@   ensures [open-with-subscriber-delivers|C01,C10] atlock(status) == 0 && atlock(observer) != nil ==> trace(observer.NextWithContext(ctx, value)) && len(atunlock(values)) == len(atlock(values))
+//@   ensures [open-with-subscriber-delivers|C01,C10,C09] atlock(status) == 0 && atlock(observer) != nil ==> trace(observer.NextWithContext(ctx, value)) && len(atunlock(values)) == len(atlock(values))
 //@   ensures [delivers-outside-the-subject-lock-so-the-observer-may-unsubscribe-from-its-callback|C06,C10] notheldat(mu, observer.NextWithContext)
-//@   ensures [open-without-subscriber-queues|C10] atlock(status) == 0 && atlock(observer) == nil && (s.bufferSize == -1 || len(atlock(values)) + 1 <= s.bufferSize) ==> trace() && len(atunlock(values)) == len(atlock(values)) + 1 && atunlock(values)[len(atlock(values))].A == ctx && atunlock(values)[len(atlock(values))].B == value && forall(j, 0, len(atlock(values)), atunlock(values)[j] == atlock(values)[j])
-//@   ensures [open-without-subscriber-keeps-last-n|C10] atlock(status) == 0 && atlock(observer) == nil && s.bufferSize != -1 && s.bufferSize >= 1 && len(atlock(values)) + 1 > s.bufferSize ==> len(atunlock(values)) == s.bufferSize && atunlock(values)[s.bufferSize - 1].A == ctx && atunlock(values)[s.bufferSize - 1].B == value
-//@   ensures [closed-drops|C01,C10] atlock(status) != 0 ==> trace(call.NewNotificationNext(value), hook.OnDroppedNotification(ctx, _))
+//@   ensures [open-without-subscriber-queues|C10,C09] atlock(status) == 0 && atlock(observer) == nil && (s.bufferSize == -1 || len(atlock(values)) + 1 <= s.bufferSize) ==> trace() && len(atunlock(values)) == len(atlock(values)) + 1 && atunlock(values)[len(atlock(values))].A == ctx && atunlock(values)[len(atlock(values))].B == value && forall(j, 0, len(atlock(values)), atunlock(values)[j] == atlock(values)[j])
+//@   ensures [open-without-subscriber-keeps-last-n|C10,C09] atlock(status) == 0 && atlock(observer) == nil && s.bufferSize != -1 && s.bufferSize >= 1 && len(atlock(values)) + 1 > s.bufferSize ==> len(atunlock(values)) == s.bufferSize && atunlock(values)[s.bufferSize - 1].A == ctx && atunlock(values)[s.bufferSize - 1].B == value
+//@   ensures [closed-drops|C01,C10,C09] atlock(status) != 0 ==> trace(call.NewNotificationNext(value), hook.OnDroppedNotification(ctx, _))
 //@   ensures [status-unchanged|C10] atunlock(status) == atlock(status)
 
 //@ func (*unicastSubjectImpl).ErrorWithContext
-//@   props C01 C02 C10 C13 C06
+//@   props C01 C02 C10 C13 C06 C09
 //@   binds ctx err
 //@   ensures [one-critical-section|C02,C10,C13] count(lock.mu) == 1
 //@   ensures [delivers-outside-the-subject-lock|C06,C10] notheldat(mu, observer.ErrorWithContext)
 //@   track observer.* hook.* call.NewNotification*
-//@   ensures [open-stores-error|C01,C10] atlock(status) == 0 ==> atunlock(status) == 1 && atunlock(err).A == ctx && atunlock(err).B == err && atunlock(observer) == nil
-//@   ensures [open-with-subscriber-delivers|C01,C10] atlock(status) == 0 && atlock(observer) != nil ==> trace(observer.ErrorWithContext(ctx, err))
-//@   ensures [closed-drops|C01,C10] atlock(status) != 0 ==> trace(call.NewNotificationError(err), hook.OnDroppedNotification(ctx, _))
+//@   ensures [open-stores-error|C01,C10,C09] atlock(status) == 0 ==> atunlock(status) == 1 && atunlock(err).A == ctx && atunlock(err).B == err && atunlock(observer) == nil
+//@   ensures [open-with-subscriber-delivers|C01,C10,C09] atlock(status) == 0 && atlock(observer) != nil ==> trace(observer.ErrorWithContext(ctx, err))
+//@   ensures [closed-drops|C01,C10,C09] atlock(status) != 0 ==> trace(call.NewNotificationError(err), hook.OnDroppedNotification(ctx, _))
 
 //@ func (*unicastSubjectImpl).CompleteWithContext
-//@   props C01 C02 C10 C13 C06
+//@   props C01 C02 C10 C13 C06 C09
 //@   binds ctx
 //@   ensures [one-critical-section|C02,C10,C13] count(lock.mu) == 1
 //@   ensures [delivers-outside-the-subject-lock|C06,C10] notheldat(mu, observer.CompleteWithContext)
 //@   track observer.* hook.* call.NewNotification*
 //@   ensures [open-stores-completion|C01,C10] atlock(status) == 0 ==> atunlock(status) == 2 && atunlock(observer) == nil
-//@   ensures [open-with-subscriber-delivers|C01,C10] atlock(status) == 0 && atlock(observer) != nil ==> trace(observer.CompleteWithContext(ctx))
-//@   ensures [closed-drops|C01,C10] atlock(status) != 0 ==> trace(call.NewNotificationComplete(), hook.OnDroppedNotification(ctx, _))
+//@   ensures [open-with-subscriber-delivers|C01,C10,C09] atlock(status) == 0 && atlock(observer) != nil ==> trace(observer.CompleteWithContext(ctx))
+//@   ensures [closed-drops|C01,C10,C09] atlock(status) != 0 ==> trace(call.NewNotificationComplete(), hook.OnDroppedNotification(ctx, _))
 
 //@ func (*unicastSubjectImpl).SubscribeWithContext
-//@   props C01 C03 C10 C13 C02 C05 C20 C08
+//@   props C01 C03 C10 C13 C02 C05 C20 C08 C09 C06
 //@   binds subscriberCtx destination
-//@   ensures [one-critical-section|C05,C08,C10,C13,C20] count(lock.mu) == 1 && heldat(mu, sub.ANY) && heldat(mu, loop.ANY)
+//@   ensures [one-critical-section|C05,C08,C10,C13,C20,C09] count(lock.mu) == 1 && heldat(mu, sub.ANY) && heldat(mu, loop.ANY)
 //@   alias sub=NewSubscriber()
 //@   track call.NewSubscriber NewSubscriber().* loop.*
-//@   ensures [first-subscriber-gets-backlog-then-attached|C01,C02,C10] atlock(status) == 0 && atlock(observer) == nil ==> trace(call.NewSubscriber(destination), loop.L0, sub.Add(_)) && atunlock(observer) == res(call.NewSubscriber) && len(atunlock(values)) == 0
-//@   ensures [second-subscriber-rejected|C10] atlock(status) == 0 && atlock(observer) != nil ==> trace(call.NewSubscriber(destination), sub.ErrorWithContext(subscriberCtx, ErrUnicastSubjectConcurrent)) && atunlock(observer) == atlock(observer)
+//@   ensures [first-subscriber-gets-backlog-then-attached|C01,C02,C10,C09] atlock(status) == 0 && atlock(observer) == nil ==> trace(call.NewSubscriber(destination), loop.L0, sub.Add(_)) && atunlock(observer) == res(call.NewSubscriber) && len(atunlock(values)) == 0
+//@   ensures [second-subscriber-rejected|C10,C09] atlock(status) == 0 && atlock(observer) != nil ==> trace(call.NewSubscriber(destination), sub.ErrorWithContext(subscriberCtx, ErrUnicastSubjectConcurrent)) && atunlock(observer) == atlock(observer)
 //@   ensures [late-subscriber-gets-backlog-then-stored-error|C10] atlock(status) == 1 ==> trace(call.NewSubscriber(destination), loop.L0, sub.ErrorWithContext(atlock(err).A, atlock(err).B))
 //@   ensures [late-subscriber-gets-backlog-then-completion|C10] atlock(status) == 2 ==> trace(call.NewSubscriber(destination), loop.L0, sub.CompleteWithContext(subscriberCtx))
-//@   ensures [returns-the-gate|C01] result == res(call.NewSubscriber)
+//@   ensures [returns-the-gate|C01,C06] result == res(call.NewSubscriber)
 //@   ensures [status-unchanged|C10] atunlock(status) == atlock(status)
 
 //@ loop (*unicastSubjectImpl).SubscribeWithContext#0
@@ -373,15 +373,15 @@ package ro
 //@   iteration emits sub.NextWithContext(ranged[it].A, ranged[it].B)
 
 //@ func (*unicastSubjectImpl).SubscribeWithContext$1
-//@   props C03 C10 C13
+//@   props C03 C10 C13 C09 C06
 //@   ensures [teardown-detaches-under-lock|C03,C10,C13] atunlock(observer) == nil && count(lock.mu) == 1
 
 //@ func (*unicastSubjectImpl).IsClosed
-//@   props C10
+//@   props C10 C09 C06
 //@   ensures [reads-status-under-lock] result == (atlock(status) != 0)
 
 //@ func (*unicastSubjectImpl).HasObserver
-//@   props C10
+//@   props C10 C09 C06
 //@   ensures [reads-observer-under-lock] result == (atlock(observer) != nil)
 
 // constructors (modular: callers only learn that the result is a subject, not nil)
